@@ -208,6 +208,72 @@ example :
     ∀ c ∈ classes, ∀ a ∈ c, ∀ c' ∈ classes, ∀ a' ∈ c', a.same a' = true → a.seq = a'.seq := by
   decide
 
+/-! ### the order of the merged attrs (finding C13-field-order-greedy-merge) -/
+
+/-- `xs` appears in `ys` in the same relative order (up to `Attr.same`) -/
+def SubseqKeys : List Attr → List Attr → Bool
+  | [], _ => true
+  | _ :: _, [] => false
+  | x :: xs, y :: ys => if x.same y then SubseqKeys xs ys else SubseqKeys (x :: xs) ys
+
+/-- full strength: the order `sorted_attrs` derives respects the order of every class it merged -/
+def field_order_respected : Prop :=
+  ∀ classes : List (List Attr), (∀ c ∈ classes, NodupKeys c) →
+    ∀ c ∈ classes, SubseqKeys c (sortedAttrs (sortByLenDesc classes)) = true
+
+/-- the occurrences `v c`, `v b`, `b c` (all consistent with `v b c`), in the order `reduce_classes` sees them -/
+def orderWitness : List (List Attr) :=
+  let mk (n : String) : Attr := { tag := .element, name := n.toList, ns := none, index := 0, types := [], min := 1, max := 1 }
+  [[mk "v", mk "c"], [mk "v", mk "b"], [mk "b", mk "c"]]
+
+/-- it is false: the merge is greedy, not topological -/
+theorem field_order_not_respected : ¬ field_order_respected := by
+  intro h
+  have := h orderWitness (by decide) (orderWitness.getLast (by decide)) (by decide)
+  revert this
+  decide
+
+/-- the provable part: when the largest class (first after the stable sort) knows every attr of the
+others, the merged order is exactly its order — so every class that is a subsequence of the largest
+one keeps its order -/
+theorem field_order_partial (classes : List (List Attr)) (first : List Attr) (rest : List (List Attr))
+    (hs : sortByLenDesc classes = first :: rest)
+    (hsub : ∀ c ∈ rest, ∀ a ∈ c, findAttr first a ≠ none) :
+    sortedAttrs (sortByLenDesc classes) = first := by
+  have hfirst : ∀ (l pending : List Attr), insertObj [] pending l = pending ++ l := by
+    intro l
+    induction l with
+    | nil => intro pending; simp [insertObj]
+    | cons a l ih => intro pending; simp [insertObj, findAttr, ih]
+  have hkeep : ∀ (l : List Attr), (∀ a ∈ l, findAttr first a ≠ none) → insertObj first [] l = first := by
+    intro l
+    induction l with
+    | nil => intro _; simp [insertObj]
+    | cons a l ih =>
+      intro hl
+      cases hf : findAttr first a with
+      | none => exact absurd hf (hl a (by simp))
+      | some pos =>
+        simp only [insertObj, hf, List.append_nil, List.take_append_drop]
+        exact ih (fun b hb => hl b (by simp [hb]))
+  rw [hs]
+  simp only [sortedAttrs, List.foldl_cons, hfirst, List.nil_append]
+  clear hs
+  induction rest with
+  | nil => rfl
+  | cons c rest ih =>
+    simp only [List.foldl_cons]
+    rw [hkeep c (hsub c (by simp))]
+    exact ih (fun c' hc' => hsub c' (by simp [hc']))
+
+/-- a largest occurrence that knows everything: `v b c` next to `v c` and `b c` -/
+example :
+    let mk (n : String) : Attr := { tag := .element, name := n.toList, ns := none, index := 0, types := [], min := 1, max := 1 }
+    let classes := [[mk "v", mk "c"], [mk "v", mk "b", mk "c"], [mk "b", mk "c"]]
+    sortByLenDesc classes = [mk "v", mk "b", mk "c"] :: [[mk "v", mk "c"], [mk "b", mk "c"]] ∧
+    ∀ c ∈ [[mk "v", mk "c"], [mk "b", mk "c"]], ∀ a ∈ c, findAttr [mk "v", mk "b", mk "c"] a ≠ none := by
+  decide
+
 /-! ### type inference -/
 
 /-- `match_type` answers with the string fallback or with the datatype of a table entry whose
@@ -223,7 +289,7 @@ theorem match_type_first (e : SEnv) (tbl : List (Option PyT × Str)) (s : Str) :
     cases t0 with
     | none =>
       have hm : matchTypeIn e ((none, q0) :: rest) s = matchTypeIn e rest s := by
-        simp [matchTypeIn, List.find?_cons]
+        simp [matchTypeIn]
       rw [hm]
       rcases ih with ⟨h1, h2⟩ | ⟨pre, t, post, h1, h2, h3⟩
       · left
@@ -245,10 +311,10 @@ theorem match_type_first (e : SEnv) (tbl : List (Option PyT × Str)) (s : Str) :
       | true =>
         right
         refine ⟨[], t0, rest, ?_, ht, by simp⟩
-        simp [matchTypeIn, List.find?_cons, ht]
+        simp [matchTypeIn, ht]
       | false =>
         have hm : matchTypeIn e ((some t0, q0) :: rest) s = matchTypeIn e rest s := by
-          simp [matchTypeIn, List.find?_cons, ht]
+          simp [matchTypeIn, ht]
         rw [hm]
         rcases ih with ⟨h1, h2⟩ | ⟨pre, t, post, h1, h2, h3⟩
         · left
@@ -276,8 +342,8 @@ python type `t`, the strict lexical test for `t` accepted the value. -/
 theorem infer_sound (e : SEnv) (s : Str) (t : PyT) (q : Str) (hq : (some t, q) ∈ explicitTypes)
     (h : matchType e s = q) : testStrict e t s = true := by
   have hf := explicit_types_functional
-  simp only [List.all_eq_true, Bool.and_eq_true, Bool.or_eq_true, decide_eq_true_eq, bne_iff_ne, ne_eq,
-    Bool.not_eq_true', decide_eq_false_iff_not] at hf
+  simp only [List.all_eq_true, Bool.and_eq_true, Bool.or_eq_true, decide_eq_true_eq, ne_eq,
+    decide_eq_false_iff_not] at hf
   rcases match_type_first e explicitTypes s with ⟨h1, _⟩ | ⟨pre, t', post, h1, h2, _⟩
   · have := (hf _ hq).1
     simp only [matchType] at h
